@@ -24,6 +24,16 @@ def sh(cmd, cwd=None, env=None, timeout=1800):
     return p.returncode, p.stdout + p.stderr
 
 
+def _digest_of(out: str) -> str:
+    """the digest a script printed: the first sha256-looking token (scripts may print further checks after it), else the last line"""
+    import re
+
+    m = re.search(r"\b[0-9a-f]{64}\b", out)
+    if m:
+        return m.group(0)
+    return out.strip().splitlines()[-1] if out.strip() else ""
+
+
 def main():
     ap = argparse.ArgumentParser()
     ap.add_argument("outdir")
@@ -53,14 +63,14 @@ def main():
             d0 = d1 = None
             if eq.exists():
                 rc0, o0 = sh([PY, str(eq)], cwd=wt, env=env, timeout=900)
-                d0 = o0.strip().splitlines()[-1] if o0.strip() else ""
+                d0 = _digest_of(o0)
             rca, oa = sh(["git", "-C", str(wt), "apply", str(patch)])
             if rca:
                 print(f"== {vdir}: patch does not apply: {oa[-200:]}")
                 continue
             if eq.exists():
                 rc1, o1 = sh([PY, str(eq)], cwd=wt, env=env, timeout=900)
-                d1 = o1.strip().splitlines()[-1] if o1.strip() else ""
+                d1 = _digest_of(o1)
             tests = ""
             if not args.no_tests:
                 rct, ot = sh([PY, "-m", "pytest", "-q", "-p", "no:cacheprovider", "--timeout=900", "-x"], cwd=wt, env=env)
